@@ -730,10 +730,17 @@ def check_index_gate_fold(run, tree):
             def attempt():
                 a = ev.instantiate(ci, [], {"values": RawTok("A", (4,)), "unit": "m", "name": "nm"}, None)
                 try:
-                    r = ev.invoke(fi, [a, mk()], {}, None)
+                    index = mk()
+                    r = ev.invoke(fi, [a, index], {}, None)
                     got_ = arr_state(r)[0] if isinstance(r, PyObj) else r
                     if isinstance(r, PyObj) and (arr_state(r)[1] != "m" or r._attrs.get("name", r._attrs.get("_name")) != "nm"):
                         got_ = ("unit/name lost", arr_state(r))
+                    elif isinstance(r, PyObj):
+                        # the SAME index object once more: a new Array on a new index result every time (numpy copies for masks and index
+                        # arrays; a remembered result is stale as soon as the data or the mask is updated in place, and shared between callers)
+                        r2 = ev.invoke(fi, [a, index], {}, None)
+                        if r2 is r or (isinstance(r2, PyObj) and r2._attrs.get("_array") is r._attrs.get("_array")):
+                            got_ = ("the second a[index] with the same index object returns the %s of the first" % ("Array object" if r2 is r else "buffer"), got_)
                 except Raised as e:
                     got_ = "raises " + e.name
                 return got_
@@ -746,7 +753,7 @@ def check_index_gate_fold(run, tree):
             if bad_branch and bad_branch[0][0]:
                 label = "%s; assuming %s" % (label, ", ".join("%s%s" % ("" if v else "NOT ", k[:70]) for k, v in sorted(bad_branch[0][0].items())))
             run.ob(construct, got == want, fi.where(), "a[%s] -> %s%s" % (label, got, "" if got == want else " (required %s)" % (want,)),
-                   "a float Array used as index (e.g. a mask multiplied by 1.0) is accepted / a boolean mask is rejected / the selection is a copy, not a view",
+                   "a float Array used as index (e.g. a mask multiplied by 1.0) is accepted / a boolean mask is rejected / the selection is a copy, not a view / a remembered selection is handed out again (stale after an in-place update, shared between callers)",
                    nontrivial=nontrivial)
         except ERR as e:
             run.unresolved(construct, fi.where(), "cannot fold: %s" % e)
